@@ -8,13 +8,33 @@ from .. import pipeline as pl
 THEOREMS = ["C06.weight_only_equiv", "C06.weight_only_outputs", "C06.weight_only_equiv_conv", "C03.xfs_wo", "C03.xfs_drq", "C02.quantize_skeleton", "C17.dq_q_rounded"]
 
 
+def gen_tied(rng, i):
+    """a constant used by several operators (one tensor, or one buffer behind several tensors) x per-consumer float-compute rules"""
+    import re
+    mb, info = gm.gen_tied(rng)
+    data = gm.random_inputs(mb, rng, n=1)
+    names = [n for sc in pl.scopes_of(mb) for n in sc.split(";") if n]
+    cmds = []
+    for n in names:
+        if rng.random() < 0.25:
+            continue
+        if rng.random() < 0.2:
+            cmds.append({"k": "add", "regex": re.escape(n), "operation": "FULLY_CONNECTED", "cfg": pl.FP16, "alg": "float_casting"})
+        else:
+            cmds.append({"k": "add", "regex": re.escape(n), "operation": rng.choice(["*", "FULLY_CONNECTED"]),
+                         "cfg": pl.UNIFORM[rng.choice(["wo8", "wo8a", "wo4", "wo4a", "drq8", "drq4", "drq8t", "drq4c"])], "alg": "min_max_uniform_quantize"})
+    return fp.Case(mb, info, cmds=cmds, data=data, desc=[(c["regex"], c["operation"], c["alg"], c["cfg"]["weight"]["bits"], c["cfg"]["weight"]["sym"]) for c in cmds])
+
+
 def gen(rng, i):
+    if i % 6 == 4:
+        return gen_tied(rng, i)
     mb, info = gm.gen_model(rng, n_subgraphs=1 if i % 5 else 2)
     data = gm.random_inputs(mb, rng, n=1)
     names = list(pl.UNIFORM)
     r = rng.random()
     if r < 0.45:
-        cfg = pl.UNIFORM[rng.choice(["wo8", "wo8a", "wo4", "wo4a", "drq8", "drq4"])]
+        cfg = pl.UNIFORM[rng.choice(["wo8", "wo8a", "wo4", "wo4a", "drq8", "drq4", "drq8t", "drq4c"])]
         cmds = [{"k": "add", "regex": ".*", "operation": "*", "cfg": cfg, "alg": "min_max_uniform_quantize"}]
     elif r < 0.6:
         cmds = [{"k": "add", "regex": ".*", "operation": "*", "cfg": pl.FP16, "alg": "float_casting"}]
@@ -24,9 +44,14 @@ def gen(rng, i):
             if rng.random() < 0.25:
                 cmds.append({"k": "add", "regex": ".*", "operation": op, "cfg": pl.FP16, "alg": "float_casting"})
             else:
-                cmds.append({"k": "add", "regex": ".*", "operation": op, "cfg": pl.UNIFORM[rng.choice(["wo8", "wo8a", "wo4", "wo4a", "drq8", "drq4"])],
+                cmds.append({"k": "add", "regex": ".*", "operation": op, "cfg": pl.UNIFORM[rng.choice(["wo8", "wo8a", "wo4", "wo4a", "drq8", "drq4", "drq8t", "drq4c"])],
                              "alg": "min_max_uniform_quantize"})
-    return fp.Case(mb, info, cmds=cmds, data=data, desc=[(c["operation"], c["alg"], c["cfg"]["cp"], c["cfg"]["weight"]["bits"]) for c in cmds])
+    if i % 5 == 2:
+        # the same object has quantized before under other rules for the same selectors (later rules override them)
+        pre = [{**c, "cfg": pl.UNIFORM[rng.choice(["wo8", "wo4a", "drq8", "drq4"])], "alg": "min_max_uniform_quantize"} for c in cmds]
+        cmds = pre + [{"k": "quantize"}] + cmds
+    return fp.Case(mb, info, cmds=cmds, data=data,
+                   desc=[(c["operation"], c["alg"], c["cfg"]["cp"], c["cfg"]["weight"]["bits"]) if c.get("k") != "quantize" else "quantize()" for c in cmds])
 
 
 def run(ctx):
